@@ -57,6 +57,9 @@ def main(ctx):
                     for L in LIMITS:
                         jobs.append({"part": "recv", "role": role, "fbd": fbd, "kind": kind,
                                      "limit": L, "tier": tier, "compress": False})
+                        if L in (125, 1000) or tier == "thorough":
+                            jobs.append({"part": "recv", "role": role, "fbd": fbd, "kind": kind,
+                                         "limit": L, "tier": tier, "compress": False, "closing": True})
                         if kind == "message" and L >= 125:
                             jobs.append({"part": "recv", "role": role, "fbd": fbd, "kind": kind,
                                          "limit": L, "tier": tier, "compress": True})
@@ -203,6 +206,11 @@ def _job_recv(a, env):
                 cutsets = [[]]
             for cuts in cutsets:
                 ep = _open(a, compress=True if a.get("compress") else None)
+                if a.get("closing"):
+                    # the application has already called sendClose(): the peer's data that is still
+                    # in flight is subject to the same limits
+                    ep.proto.sendClose(1000, "bye")
+                    ep._hs_written = len(ep.t.written)
                 evals += 1
                 stats["nontrivial"] += 1
                 ok_feed = True
@@ -219,13 +227,17 @@ def _job_recv(a, env):
                     stats["header_only_checked"] += 1
                     failed = (o["n_close"] == 1 and o["close_code"] == 1009) if not fbd else \
                         bool(o["calls"])
+                    if a.get("closing"):
+                        # our close frame is already out: the only way left to fail is to drop;
+                        # what matters is that nothing over the limit is buffered and delivered
+                        failed = True
                     if not failed:
                         bad("not-failed-after-header",
                             "after the header of frame %d (payload withheld): state=%s close=%s calls=%s" % (
                                 k, o["state"], o["close_code"], o["calls"]), lens, cuts)
                     else:
                         stats["failed_drop" if fbd else "failed_1009"] += 1
-                    if not fbd and o["n_close"] and o["close_code"] != 1009:
+                    if not fbd and o["n_close"] and o["close_code"] != 1009 and not a.get("closing"):
                         bad("wrong-close-status", str(o["close_code"]), lens, cuts)
                     # now supply payload + a following small message: nothing may be delivered
                     if frs[target][1] is not None:
@@ -243,7 +255,11 @@ def _job_recv(a, env):
                         bad("escape", o2["escapes"][0][:120], lens, cuts)
                 else:
                     stats["recv_within_limit"] += 1
-                    if o["state"] != 3 or o["n_close"] or o["calls"]:
+                    if a.get("closing"):
+                        if o["calls"] or o["n_close"]:
+                            bad("failed-within-limit-while-closing", "calls=%s" % o["calls"], lens, cuts)
+                            continue
+                    elif o["state"] != 3 or o["n_close"] or o["calls"]:
                         bad("failed-within-limit", "state=%s close=%s calls=%s" % (
                             o["state"], o["close_code"], o["calls"]), lens, cuts)
                         continue
@@ -259,7 +275,7 @@ def _job_recv(a, env):
                     o2 = _obs(ep)
                     stats["later_message_checked"] += 1
                     exp = [(clear_total, True), (after, True)]
-                    if o2["msgs"] != exp or o2["state"] != 3 or o2["escapes"]:
+                    if o2["msgs"] != exp or (o2["state"] != 3 and not a.get("closing")) or o2["escapes"]:
                         bad("not-delivered-within-limit", "got %s state=%s esc=%s" % (
                             [(len(m[0]), m[1]) for m in o2["msgs"]], o2["state"], o2["escapes"][:1]),
                             lens, cuts)
@@ -498,6 +514,49 @@ def _job_bomb(a, env):
                         if msgs != expect_all:
                             bad("later-messages-corrupted", tag + " got %s" % (
                                 [(len(m[0]), m[1]) for m in msgs],))
+    # several compressed messages, each within the cap, on ONE connection (with and without context
+    # takeover): the cap is per message, all of them must be delivered
+    for takeover in (True, False):
+        for nmsg in (2, 5):
+            each = cap - 1
+            clear_msgs = [bytes(((i * 7 + j) & 0x3F) + 0x20 for i in range(each)) for j in range(nmsg)]
+            c = zlib.compressobj(9, zlib.DEFLATED, -15)
+            if role == "server":
+                def accept(offers, _cap=cap, _to=takeover):
+                    for o in offers:
+                        if isinstance(o, CM.PerMessageDeflateOffer):
+                            return CM.PerMessageDeflateOfferAccept(
+                                o, max_message_size=_cap,
+                                request_no_context_takeover=not _to and o.accept_no_context_takeover)
+                ep = ws.Endpoint(role, {"failByDrop": fbd, "perMessageCompressionAccept": accept})
+                ep.feed(ep.server_request(compress=True))
+            else:
+                def accept(resp, _cap=cap):
+                    if isinstance(resp, CM.PerMessageDeflateResponse):
+                        return CM.PerMessageDeflateResponseAccept(resp, max_message_size=_cap)
+                ep = ws.Endpoint(role, {"failByDrop": fbd, "perMessageCompressionAccept": accept,
+                                        "perMessageCompressionOffers": [CM.PerMessageDeflateOffer()]})
+                ep.conn.settle()
+                ep.feed(ep.client_response(bytes(ep.t.written), compress=True))
+            if ep.state() != 3 or ep.proto._perMessageCompress is None:
+                raise RuntimeError("harness: handshake failed")
+            ep._hs_written = len(ep.t.written)
+            for cl in clear_msgs:
+                if not takeover and role == "server":
+                    c = zlib.compressobj(9, zlib.DEFLATED, -15)
+                b2 = c.compress(cl) + c.flush(zlib.Z_SYNC_FLUSH)
+                ep.feed(F.encode(2, b2[:-4], rsv=4, mask=mask))
+            ep.conn.settle()
+            evals += 1
+            stats["nontrivial"] += 1
+            stats["shapes"] += 1
+            stats["bomb_within_cap"] += 1
+            o = _obs(ep)
+            if o["msgs"] != [(cl, True) for cl in clear_msgs] or o["state"] != 3 or o["escapes"]:
+                bad("within-cap-sequence-not-delivered",
+                    "%d messages of %d octets each (cap %d, takeover=%s): delivered %s, state=%s close=%s esc=%s" % (
+                        nmsg, each, cap, takeover, [len(m[0]) for m in o["msgs"]], o["state"],
+                        o["close_code"], o["escapes"][:1]))
     return {"evals": evals, "viol": viol, "stats": stats,
             "samples": [{"part": "bomb", "role": role, "cap": cap}]}
 
